@@ -33,6 +33,7 @@ type cfg struct {
 	Stops   int    // 1: the context the rerunner was created with is cancelled just before Stop; 2: two threads call Stop
 	Retry   int    // 1: the top-level computation returns RetrySentinelError once, after registering its dependencies, when item 0 is at version >= 1; 2: the same inside its first cached child
 	Pre     string // items written one at a time by the main thread, each followed by quiescence, before the concurrent phase ("-" = none)
+	Plain   bool   // strobe mode: once the first run has settled, a thread without a rerunner registers a dependency on the long-lived resource 0 (a non-reactive reader of shared state), concurrently with the writers
 }
 
 func (c cfg) name() string {
@@ -55,6 +56,9 @@ func (c cfg) pre() string {
 	if c.Stops != 0 {
 		s += fmt.Sprintf(" stops=%d", c.Stops)
 	}
+	if c.Plain {
+		s += " plainreader"
+	}
 	return s
 }
 
@@ -65,6 +69,12 @@ func parse(s string) cfg {
 	if c.Pre == "-" {
 		c.Pre = ""
 	}
+	return c
+}
+
+func parsePlain(s string) cfg {
+	c := parse(strings.Replace(s, " plainreader", "", 1))
+	c.Plain = strings.Contains(s, " plainreader")
 	return c
 }
 
@@ -154,6 +164,7 @@ func (w *world) write(i int) {
 }
 
 type runner struct {
+	maxRuns   int // plain-reader configurations: upper bound for runs (runs at the settled point + one per later write + 1)
 	w         *world
 	id        int
 	rr        *reactive.Rerunner
@@ -283,6 +294,9 @@ func (rn *runner) compute(ctx context.Context) (interface{}, error) {
 		return nil, errStop
 	}
 	rn.runs++
+	if rn.maxRuns > 0 && rn.runs > rn.maxRuns {
+		rn.w.x.Fail("no-rerun-without-a-write", "", "runner %d ran %d times after settling although only %d writes followed", rn.id, rn.runs, rn.maxRuns-1)
+	}
 	rn.last = out
 	rt.Note("compute done: reads %v", out.reads)
 	return out, nil
@@ -325,6 +339,15 @@ func item(c cfg) *explore.Item {
 		if c.Pre != "" {
 			rt.QuiesceWithin(time.Minute)
 		}
+		plainCleanups := 0
+		if c.Plain {
+			w.long[0].Cleanup(func() { plainCleanups++ })
+			rt.QuiesceWithin(time.Minute)
+			for _, rn := range runners {
+				rn.maxRuns = rn.runs + c.Writers*c.Writes + 1
+			}
+			rt.Go(func() { reactive.AddDependency(context.Background(), w.long[0], nil) })
+		}
 		for wi := 0; wi < c.Writers; wi++ {
 			wi := wi
 			rt.Go(func() {
@@ -354,6 +377,9 @@ func item(c cfg) *explore.Item {
 		rt.QuiesceWithin(time.Minute)
 
 		// ---- oracle at quiescence ----
+		if c.Plain && plainCleanups > 0 && !runners[0].stopped && !runners[0].failed {
+			x.Fail("cleanup-live", "", "the cleanup of the shared long-lived resource ran %d time(s) while a live computation depends on it", plainCleanups)
+		}
 		live := map[*reactive.Resource]bool{}
 		held := map[*reactive.Resource]bool{} // a failed, not yet stopped rerunner still holds its last good computation
 		for _, rn := range runners {
@@ -515,6 +541,10 @@ func c08configs(tier string) []cfg {
 	out = append(out, cfg{Shape: "direct", Mode: "perrun", NRes: 2, Writers: 1, Writes: 2, Runners: 1, Retry: 1},
 		cfg{Shape: "after", Mode: "perrun", NRes: 1, Writers: 1, Writes: 1, Runners: 1, Retry: 1})
 	out = append(out, cfg{Shape: "purge", Mode: "perrun", NRes: 2, Writers: 1, Writes: 2, Runners: 1, Pre: "10"})
+	// a non-reactive reader of a resource a live computation depends on
+	out = append(out, cfg{Shape: "direct", Mode: "strobe", NRes: 1, Writers: 1, Writes: 1, Runners: 1, Plain: true},
+		cfg{Shape: "cache", Mode: "strobe", NRes: 2, Writers: 1, Writes: 1, Runners: 1, Plain: true},
+		cfg{Shape: "cache", Mode: "strobe", NRes: 2, Writers: 1, Writes: 1, Runners: 1, Stop: true, Plain: true})
 	// Stop after the creator's context was cancelled, and two concurrent Stops: everything is released all the same
 	for _, stops := range []int{1, 2} {
 		out = append(out, cfg{Shape: "cache", Mode: "perrun", NRes: 2, Writers: 1, Writes: 1, Runners: 1, Stop: true, Stops: stops},
@@ -540,7 +570,7 @@ func runWith(cfgs func(string) []cfg) func(rp *explore.Report, tier string) {
 }
 
 func init() {
-	mk := func(name string) *explore.Item { return item(parse(name)) }
+	mk := func(name string) *explore.Item { return item(parsePlain(name)) }
 	reg.Register(&reg.Harness{Property: "C04", Name: "c04/rerunner", Level: "model_checking", Bounds: [2]int{3, 4}, Run: runWith(c04configs), Item: mk,
 		Rule: "items = dependency shape (direct/cached/shared child/conditional/InvalidateAfter) x resource mode (strobed long-lived, per-run + Invalidate) x writers/writes x alwaysSpawnGoroutine x minRerunInterval x WriteThenReadDelay x stopper (also after the creator's context was cancelled, and two concurrent Stops) x 1-2 rerunners x failing computation; all interleavings within the deviation bound on the real reactive package; oracle: run overlap counter, no run after Stop returned, versions read by the last completed run == current versions at quiescence"})
 	reg.Register(&reg.Harness{Property: "C08", Name: "c08/cache", Level: "model_checking", Bounds: [2]int{3, 5}, Run: runWith(c08configs), Item: mk,
